@@ -498,7 +498,7 @@ def select(rng, genf, required, per_tag, max_programs, tries=4000):
 # ------------------------------------------------------------------ C08 programs (macros)
 
 C08_TAGS = ["or-then-again", "twice", "clash-before", "clash-after", "site-or", "body-or", "nested-body", "nested-head", "head-macro", "expr-param", "ident-in", "ident-out",
-            "local-pat", "local-cond", "body-attached-cond", "body-attached-let", "local-neg", "twice-nested", "nested-passes-local", "expr-arg-mentions-clash", "macro-in-fact-head", "chain-twice", "chain-clash", "suffix-twice", "block-shadow"]
+            "local-pat", "local-cond", "body-attached-cond", "body-attached-let", "local-neg", "twice-nested", "nested-passes-local", "expr-arg-mentions-clash", "macro-in-fact-head", "chain-twice", "chain-clash", "suffix-twice", "block-shadow", "nested-local-same-spelling"]
 
 
 def gen_macro_body(rng, p, edb, idb, params, nested=None, want=()):
@@ -661,6 +661,24 @@ def gen_c08_program(rng):
             return ("cl", r, [("v", vals[j]) if j in vals else ("_",) for j in range(len(tys))], [])
         macros.append({"params": ["ident", "ident"], "body": [hop(("p", 0), L), hop(L, 10 * L + 1), hop(10 * L + 1, ("p", 1))]}); modes.append(["out", "out"])
         sfx = len(macros) - 1
+    # nested invocation whose ARGUMENT is a local of the outer macro spelled exactly like a local of the inner macro:
+    #   macro steps($a: expr, $b: ident) { r($a, t), r(t, $b) }      macro from($r: ident) { r(t, _), steps!(t, $r) }
+    # (the outer `t` handed to `steps!` is a token of ANOTHER macro's body: the pass that renames the inner macro's locals must leave it alone)
+    same = None
+    if two_int and rng.chance(2, 3):
+        r = rng.choice([x for x in two_int if x in edb] or two_int)
+        tys = S.rel_types(p, r)
+        ints = [j for j, t in enumerate(tys) if t == "int"][:2]
+        L = 3 + rng.below(3)
+        def cl2(a, b):
+            vals = {ints[0]: a, ints[1]: b}
+            return ("cl", r, [(vals[j] if j in vals else ("_",)) for j in range(len(tys))], [])
+        macros.append({"params": ["expr", "ident"], "body": [cl2(("e", ("var", ("p", 0))), ("v", L)), cl2(("v", L), ("v", ("p", 1)))]}); modes.append(["expr", "out"])
+        inner = len(macros) - 1
+        arg = ("ex", ("var", L)) if rng.chance(2, 3) else ("ex", ("add", ("var", L), 0))
+        macros.append({"params": ["ident"], "body": [cl2(("v", L), ("_",)), ("mac", inner, [arg, ("id", ("p", 0))])]}); modes.append(["out"])
+        same = len(macros) - 1
+        tags.add("nested-body")
     # head macros: parameters are expressions / identifiers that are read only
     nh = rng.range(1, 2)
     hmacs = []
@@ -788,6 +806,11 @@ def gen_c08_program(rng):
             # a call-site variable spelled exactly like the macro-local `mid`
             p["rules"].append({"heads": [head(rng.choice(hs), mid, 63)], "body": [("mac", ci, [("id", mid), ("id", 63)])]})
             tags.add("chain-clash")
+    if same is not None:
+        p["rels"].append({"arity": 1})
+        h = len(p["rels"]) - 1
+        p["rules"].append({"heads": [(h, [("var", 67)])], "body": [("mac", same, [("id", 67)])]})
+        tags.add("nested-local-same-spelling")
     if sfx is not None:
         # its own head relation (nothing else derives it): a lost tuple is not masked by the other rules of the program
         p["rels"].append({"arity": 2})
